@@ -10,8 +10,9 @@ META = {
              "every merge table and piece, with no size bound; build_merge_map gives a pair the rank of its LAST listing; the "
              "ids Bpe::encode_piece produces are the vocabulary ids of the pieces the string-level reference produces whenever "
              "the supplied vocabulary does not share ids (also with an end-of-word suffix). The model is tied to the code by "
-             "running Bpe::new + Tokenizer::encode and the model on the same tables and words (all tables of <=2 (quick) / <=3 "
-             "(thorough) merges over {a,b,c} x all words up to length 4/5, sampled 3-4-merge tables, random trained tables with "
+             "running Bpe::new + Tokenizer::encode and the model on the same tables and words (all tables of <=2 merges over "
+             "{a,b,c} x all words up to length 4 (quick) / 5 (thorough); thorough: all 3-merge tables up to renaming of the alphabet "
+             "x words <= 4; tables [p,q,p]; sampled 3-4-merge tables, random trained tables with "
              "multi-byte symbols, supplied/generated vocabularies, duplicate and out-of-order entries, malformed tables) and "
              "comparing ids inside Coq; the implementation's own ids are checked against the string-level reference there too."),
     "note": ("Trusted: Coq kernel; the correspondence sample (a test, not a proof); FxHashMap modelled as a finite map; ranks are "
@@ -43,7 +44,7 @@ def main(ctx):
     if not ok:
         raise vf.CheckerBroken("ModelC28.v does not compile: " + out[-1500:])
     bindir = ctx.harness(GROUP, profile="release", bins=["c28"])
-    cases = ctx.gen_exec(bindir, "c28", ctx.n(60, 1500), inputs=ctx.replay_inputs())
+    cases = ctx.gen_exec(bindir, "c28", ctx.n(60, 800), inputs=ctx.replay_inputs())
     lim = int(os.environ.get("VERIF_BPE_LIMIT", "0"))   # debugging aid (mutation experiments): stratified subset
     if lim and len(cases) > lim:
         cases = cases[::len(cases) // lim]
